@@ -60,7 +60,7 @@ type copyCase struct {
 	// KeepExcluded: the excluded names stay present on both sides of the comparison (they are invisible to CompareFS;
 	// the mutation is applied to what it is meant to see)
 	KeepExcluded bool `json:"excluded_names_present,omitempty"`
-	Desc     any    `json:"tree,omitempty"`
+	Desc         any  `json:"tree,omitempty"`
 }
 
 var excludedNames = map[string]bool{"lost+found": true, ".DS_Store": true, "System Volume Information": true}
